@@ -79,6 +79,80 @@ def call (params : List String) (d env : Dict) : Except Err Dict :=
   if (necessary params d).all fun k => (keys env).contains k then assemble params d env
   else .error .missingArg
 
+/-! ### the argument of a call is *any mapping*
+
+  A user mapping is observed through `key in m` (`contains`) and `m[key]` (`getitem`).  For a plain dict,
+  OrderedDict, MappingProxyType, ChainMap or `Points.coordinates`, `m[key]` of an absent key is a KeyError.
+  A `collections.defaultdict` or a dict subclass with `__missing__` answers it with a fallback value, and a
+  defaultdict also STORES that value under the key: there `m[key]` is only harmless after `key in m`. -/
+
+structure Mapping where
+  stored : Dict
+  fallback : Option Val      -- what `m[k]` answers for an absent key (`none`: KeyError)
+  inserts : Bool             -- defaultdict: the fallback is stored under the key
+  deriving DecidableEq, Repr
+
+def Mapping.contains (m : Mapping) (k : String) : Bool := (keys m.stored).contains k
+
+/-- `m[k]`: the value (or KeyError) and the mapping afterwards -/
+def Mapping.getitem (m : Mapping) (k : String) : Option Val × Mapping :=
+  match m.stored.lookup k with
+  | some v => (some v, m)
+  | none =>
+    match m.fallback with
+    | none => (none, m)
+    | some v => (some v, if m.inserts then { m with stored := dset m.stored k v } else m)
+
+/-- `{key: args[key] for key in l if key in args}` on a user mapping, the mapping threaded through -/
+def pickM (m : Mapping) : List String → Except Err (List (String × Val)) × Mapping
+  | [] => (.ok [], m)
+  | k :: t =>
+    if m.contains k then
+      match m.getitem k with
+      | (some v, m') =>
+        match pickM m' t with
+        | (.ok r, m'') => (.ok ((k, v) :: r), m'')
+        | (.error e, m'') => (.error e, m'')
+      | (none, m') => (.error .keyError, m')
+    else pickM m t
+
+/-- `__call__` as coded, on a user mapping: the assert loop (`key in args`), the supplied names
+    (`args[key]` only `if key in args`), then the defaults of the names that are `not in args` -/
+def callM (params : List String) (d : Dict) (m : Mapping) : Except Err Dict × Mapping :=
+  if (necessary params d).all fun k => m.contains k then
+    match pickM m params with
+    | (.ok sup, m') =>
+      match allSome ((params.filter fun p => !m'.contains p).map fun p => (d.lookup p).map (p, ·)) with
+      | some rest => (.ok (dupdate (dictOf sup) (dictOf rest)), m')
+      | none => (.error .keyError, m')
+    | (.error e, m') => (.error e, m')
+  else (.error .missingArg, m)
+
+/-- the "ask first" variant (`try: args[key] except KeyError: defaults[key]`), kept to state why it is
+    wrong for mappings with a fallback -/
+def collectEafp (d : Dict) (m : Mapping) : List String → Except Err (List (String × Val)) × Mapping
+  | [] => (.ok [], m)
+  | k :: t =>
+    match m.getitem k with
+    | (some v, m') =>
+      match collectEafp d m' t with
+      | (.ok r, m'') => (.ok ((k, v) :: r), m'')
+      | (.error e, m'') => (.error e, m'')
+    | (none, m') =>
+      match d.lookup k with
+      | some v =>
+        match collectEafp d m' t with
+        | (.ok r, m'') => (.ok ((k, v) :: r), m'')
+        | (.error e, m'') => (.error e, m'')
+      | none => (.error .keyError, m')
+
+def callEafp (params : List String) (d : Dict) (m : Mapping) : Except Err Dict × Mapping :=
+  if (necessary params d).all fun k => m.contains k then
+    match collectEafp d m params with
+    | (.ok bs, m') => (.ok (dictOf bs), m')
+    | (.error e, m') => (.error e, m')
+  else (.error .missingArg, m)
+
 /-- what the user's function can observe of `**kw`: its parameters in declaration order -/
 def canon (params : List String) (kw : Dict) : List (String × Option Val) :=
   params.map fun p => (p, kw.lookup p)
